@@ -121,6 +121,8 @@ fn parse_nodes(mut s: &str) -> Option<(Vec<N>, &str)> {
 
 pub struct InheritModel {
     pub tpls: BTreeMap<String, ITpl>,
+    /// fallback prefixes: a name is looked up exactly first, then under each prefix in order
+    pub prefixes: Vec<String>,
 }
 
 fn collect_defs<'a>(ns: &'a [N], out: &mut BTreeMap<String, &'a Vec<N>>) {
@@ -211,17 +213,25 @@ impl InheritModel {
         for (k, e) in &m.tpls {
             tpls.insert(k.clone(), parse_tpl(&e.source)?);
         }
-        Some(InheritModel { tpls })
+        Some(InheritModel { tpls, prefixes: m.config.prefixes.clone() })
+    }
+
+    /// The registry name a reference reaches (by-name entry points, `extends` targets).
+    pub fn resolve(&self, name: &str) -> Option<String> {
+        if self.tpls.contains_key(name) {
+            return Some(name.to_string());
+        }
+        self.prefixes.iter().map(|p| format!("{}{}", p, name)).find(|n| self.tpls.contains_key(n))
     }
 
     fn chain(&self, entry: &str) -> Option<Vec<&ITpl>> {
         let mut out = Vec::new();
-        let mut cur = entry.to_string();
+        let mut cur = self.resolve(entry)?;
         for _ in 0..64 {
             let t = self.tpls.get(&cur)?;
             out.push(t);
             match &t.extends {
-                Some(p) => cur = p.clone(),
+                Some(p) => cur = self.resolve(p)?,
                 None => return Some(out),
             }
         }
@@ -275,7 +285,19 @@ pub fn check(sc: &RegScenario, model: &Model, t: &Tera, ctxs: &[Context], i: usi
         return;
     };
     let ctx = ctxs.first().cloned().unwrap_or_default();
-    for name in model.tpls.keys() {
+    // every registry name, plus the short name of every prefixed template (by-name entry points
+    // resolve exact names first, then the prefixes in order)
+    let mut entry_names: Vec<String> = model.tpls.keys().cloned().collect();
+    for k in model.tpls.keys() {
+        for p in &im.prefixes {
+            if let Some(short) = k.strip_prefix(p.as_str()) {
+                if !entry_names.iter().any(|n| n == short) {
+                    entry_names.push(short.to_string());
+                }
+            }
+        }
+    }
+    for name in &entry_names {
         let Some(expect) = im.render(name) else { continue };
         stats.inc("evaluations_model_renders");
         let got = match catch(|| t.render(name, &ctx)) {
@@ -301,8 +323,16 @@ pub fn check(sc: &RegScenario, model: &Model, t: &Tera, ctxs: &[Context], i: usi
             (Err(why), Ok(g)) => out.violations.push(Violation::new("C04", "render-succeeds-where-model-fails", format!("after op {}: render({}) = {:?}, model: {}", i, name, g, why))),
         }
         // render_block for every block name of the chain (+ one absent name)
-        let mut blocks = im.chain_blocks(name);
+        let in_chain_blocks = im.chain_blocks(name);
+        let mut blocks = in_chain_blocks.clone();
         blocks.push("zz_absent".to_string());
+        // block names that exist elsewhere in the registry (another chain, a twin under another
+        // resolution level) but not in the chain this name resolves to: absent for this name
+        for b in &sc.probe.blocks {
+            if !blocks.contains(b) {
+                blocks.push(b.clone());
+            }
+        }
         for b in &blocks {
             stats.inc("evaluations_model_block_renders");
             let gb = match catch(|| t.render_block(name, b, &ctx)) {
@@ -312,7 +342,7 @@ pub fn check(sc: &RegScenario, model: &Model, t: &Tera, ctxs: &[Context], i: usi
                     continue;
                 }
             };
-            let in_chain = b != "zz_absent";
+            let in_chain = in_chain_blocks.contains(b);
             match (&expect, &gb) {
                 (_, Err(e)) if !in_chain => {
                     if !format!("{}", e).contains("not found") {
@@ -346,7 +376,6 @@ pub fn check(sc: &RegScenario, model: &Model, t: &Tera, ctxs: &[Context], i: usi
             }
         }
     }
-    let _ = sc;
 }
 
 /// Is some definition of `b` in the chain of `entry` nested in a filter section?
@@ -487,7 +516,21 @@ pub fn generate(seed: u64, tier: &str, property: &str) -> RegScenario {
             prev = Some(name);
         }
     }
-    let items: Vec<(String, String)> = tpls.iter().map(|(n, e, b)| (n.clone(), render_tpl(e.as_deref(), b))).collect();
+    // prefix mode: some templates live under a fallback prefix while every reference keeps the
+    // short name; later, twins take over short names (exact name, or the other prefix) with other
+    // block tables — `render`, `render_block` and `extends` must all follow "exact first, then
+    // the prefixes in order"
+    let prefixes: Vec<String> = if rng.chance(1, 4) {
+        if rng.chance(1, 2) { vec!["p/".to_string()] } else { vec!["p/".to_string(), "q/".to_string()] }
+    } else {
+        vec![]
+    };
+    let mut reg_name: BTreeMap<String, String> = BTreeMap::new();
+    for t in tpls.iter() {
+        let rn = if !prefixes.is_empty() && rng.chance(1, 2) { format!("{}{}", rng.pick(&prefixes), t.0) } else { t.0.clone() };
+        reg_name.insert(t.0.clone(), rn);
+    }
+    let items: Vec<(String, String)> = tpls.iter().map(|(n, e, b)| (reg_name[n].clone(), render_tpl(e.as_deref(), b))).collect();
 
     // ---- history kinds (i)-(iv)
     let mut ops = Vec::new();
@@ -542,18 +585,46 @@ pub fn generate(seed: u64, tier: &str, property: &str) -> RegScenario {
         let mut nb = body.clone();
         mutate(&mut nb, &rng, &mut g, ext.is_some());
         let src = render_tpl(ext.as_deref(), &nb);
-        ops.push(Op::AddRaw { name: name.clone(), source: src });
+        ops.push(Op::AddRaw { name: reg_name[&name].clone(), source: src });
         notes.push(OpNote { invalid: Some("replacement-may-orphan-a-child-block".into()), replaces_dependency: true });
         if rng.chance(1, 2) {
             tpls[x].2 = nb;
         }
     }
+    // twins (prefix mode): a root-like template with its own block table takes over the short
+    // name of a prefixed template, as an exact name or under the other prefix
+    if !prefixes.is_empty() {
+        let prefixed: Vec<String> = reg_name.iter().filter(|(k, v)| k != v).map(|(k, _)| k.clone()).collect();
+        for _ in 0..rng.below(3) {
+            if prefixed.is_empty() {
+                break;
+            }
+            let short = rng.pick(&prefixed);
+            let full = reg_name[&short].clone();
+            let twin_name = if prefixes.len() > 1 && rng.chance(1, 2) {
+                let other = prefixes.iter().find(|p| !full.starts_with(p.as_str())).unwrap();
+                format!("{}{}", other, short)
+            } else {
+                short.clone()
+            };
+            let mut used: Vec<String> = Vec::new();
+            let mut body = vec![g.text()];
+            body.extend(g.nodes(0, &mut used, &pool, false, (0, 1), rng.chance(2, 3)));
+            ops.push(Op::AddRaw { name: twin_name, source: render_tpl(None, &body) });
+            notes.push(OpNote { invalid: Some("twin-with-another-block-table".into()), replaces_dependency: true });
+        }
+    }
 
-    let names: Vec<String> = tpls.iter().map(|t| t.0.clone()).collect();
+    let mut names: Vec<String> = tpls.iter().map(|t| reg_name[&t.0].clone()).collect();
+    for t in tpls.iter() {
+        if !names.contains(&t.0) {
+            names.push(t.0.clone());
+        }
+    }
     RegScenario {
         family: "inherit".into(),
         property: property.to_string(),
-        config: Config { autoescape: None, prefixes: vec![], delims: Default::default(), global: SCtx::default(), custom: false },
+        config: Config { autoescape: None, prefixes, delims: Default::default(), global: SCtx::default(), custom: false },
         hash_base: rng.next_u64(),
         contexts: vec![SCtx::default()],
         probe: Probe { names, blocks: pool.clone(), comps: vec![] },
